@@ -84,6 +84,13 @@ class FP:
 
     def start(self) -> None:
         self.w.point("start")
+        if self.w.pid_pool:
+            # multiprocessing.Process.start() first reaps every finished child of this process (process._cleanup()): their
+            # numbers become free for the process being started
+            for q in self.w.procs:
+                if q.state == "zombie":
+                    q.state = "reaped"
+                    self.w.freed.append(q.pid)
         self.uid = self.w.pid          # unique per process incarnation: what the trace talks about
         self.w.pid += 1
         self.pid = self.w.alloc_pid(self.uid)     # what the OS hands out: may be a number an earlier, reaped process had
@@ -100,6 +107,7 @@ class FP:
         self.w.point("is_alive")
         if self.state == "zombie":
             self.state = "reaped"
+            self.w.freed.append(self.pid)
         return self.state in ("alive", "terminating")
 
     def terminate(self) -> None:
@@ -119,10 +127,12 @@ class FP:
         if self.state == "terminating":
             if timeout is None or float(timeout) >= self.remaining:
                 self.state = "reaped"           # waited until it exited
+                self.w.freed.append(self.pid)
             else:
                 self.remaining -= float(timeout)
         elif self.state == "zombie":
             self.state = "reaped"
+            self.w.freed.append(self.pid)
         self.w.trace.append(["join", self.slot, self.uid, before, self.state, timeout])
 
 
@@ -142,6 +152,7 @@ class World:
         self.queue: Any = None
         self.pid_pool = 0
         self.last_pid = 4999
+        self.freed: List[Any] = []
         self.vanish: set = set()
         self.call_limit = 3000
 
@@ -150,6 +161,13 @@ class World:
             return uid
         n = self.pid_pool
         in_use = {p.pid for p in self.procs if p.state in ("alive", "terminating", "zombie")}
+        # any free number is a legal answer of the OS; the most recently freed one first (the worst case for code that
+        # remembers process ids), then cyclic allocation
+        while self.freed:
+            cand = self.freed.pop()
+            if cand is not None and cand not in in_use and 5000 <= cand < 5000 + n:
+                self.last_pid = cand
+                return cand
         for k in range(1, n + 1):          # cyclic allocation like the kernel's, wrapping at pid_max
             cand = 5000 + (self.last_pid - 5000 + k) % n
             if cand not in in_use:
@@ -214,6 +232,7 @@ class World:
         if p is not None and p.state == "alive" and p.slot in self.vanish:
             # the process exited (and was reaped, e.g. SIGCHLD ignored) between the manager's is_alive() and its os.kill()
             p.state = "reaped"
+            self.freed.append(p.pid)
             self.trace.append(["die", p.slot, p.uid])
             raise ProcessLookupError(pid)
         if p is None or p.state == "reaped":
@@ -260,7 +279,7 @@ def run_manager(W: int, max_fails: int, history: List[Dict[str, Any]], startup_d
         except Hang:
             ret, status, exc = None, "raised", "Hang: the manager spins without sleeping (>3000 OS calls in one tick)"
             w.trace.append(["raise", "Hang"])
-        except Exception as e:  # noqa: BLE001
+        except (Exception, KeyboardInterrupt, SystemExit) as e:  # noqa: BLE001
             ret, status, exc = None, "raised", f"{type(e).__name__}: {e}"
             w.trace.append(["raise", type(e).__name__])
         return {"status": status, "ret": ret, "exc": exc, "trace": w.trace, "nworkers": len(m.workers),
